@@ -9,7 +9,11 @@ import (
 	crand "crypto/rand"
 	"io/fs"
 	"os"
+	"runtime"
+	"sync"
 )
+
+func runtimeGosched() { runtime.Gosched() }
 
 // ---- scheduling hook ----
 
@@ -215,4 +219,83 @@ func CreateTemp(dir, pattern string) (*File, error) {
 		return f, err
 	}
 	return nil, os.ErrExist
+}
+
+// ---- cooperative locks ----
+//
+// Instrumented library files use these instead of sync.Mutex / RWMutex / Once.
+// Under the simulator exactly one task runs at a time and tasks are switched at
+// yield points, possibly while a lock is held; a task that really blocked on a
+// lock would stop the whole simulation. These types therefore wait by yielding:
+// they wrap the real primitive (so the race detector still sees the
+// happens-before edges a lock gives) and use TryLock in a loop.
+
+// YieldBlocked, when set, forces a switch to another task (the caller cannot go on).
+var YieldBlocked func(site string)
+
+func waitFor(site string) {
+	if YieldBlocked != nil {
+		YieldBlocked(site)
+		return
+	}
+	if Yield != nil {
+		Yield(site)
+		return
+	}
+	runtimeGosched()
+}
+
+type Mutex struct{ mu sync.Mutex }
+
+func (m *Mutex) Lock() {
+	Y("mutex.lock")
+	for !m.mu.TryLock() {
+		waitFor("mutex.wait")
+	}
+}
+func (m *Mutex) Unlock() {
+	m.mu.Unlock()
+	Y("mutex.unlocked") // releasing a lock is where another caller gets in
+}
+func (m *Mutex) TryLock() bool { return m.mu.TryLock() }
+
+type RWMutex struct{ mu sync.RWMutex }
+
+func (m *RWMutex) Lock() {
+	Y("rwmutex.lock")
+	for !m.mu.TryLock() {
+		waitFor("rwmutex.wait")
+	}
+}
+func (m *RWMutex) Unlock() {
+	m.mu.Unlock()
+	Y("rwmutex.unlocked")
+}
+func (m *RWMutex) RLock() {
+	for !m.mu.TryRLock() {
+		waitFor("rwmutex.rwait")
+	}
+}
+func (m *RWMutex) RUnlock()             { m.mu.RUnlock() }
+func (m *RWMutex) TryLock() bool        { return m.mu.TryLock() }
+func (m *RWMutex) TryRLock() bool       { return m.mu.TryRLock() }
+func (m *RWMutex) RLocker() sync.Locker { return (*rlocker)(m) }
+
+type rlocker RWMutex
+
+func (r *rlocker) Lock()   { (*RWMutex)(r).RLock() }
+func (r *rlocker) Unlock() { (*RWMutex)(r).RUnlock() }
+
+type Once struct {
+	m    Mutex
+	done bool
+}
+
+func (o *Once) Do(f func()) {
+	o.m.Lock()
+	defer o.m.Unlock()
+	if !o.done {
+		defer func() { o.done = true }()
+		f()
+	}
 }
